@@ -61,6 +61,7 @@ class Reader:
         self.tables = {'macros': {}, 'properties': {}}
         self.read_module_tables()
         self.order = self.read_addprofiles()
+        self.flags = self.read_flags()
 
     def profile_name(self, node):
         """Profiles.X / self.X -> the constant's value"""
@@ -105,6 +106,32 @@ class Reader:
                     raise TranslateError('%s is not initialised with {}' % t.id)
             elif isinstance(t, ast.Subscript) and isinstance(t.value, ast.Name) and t.value.id in self.tables:
                 self.tables[t.value.id][self.profile_name(t.slice)] = self.str_dict(st.value)
+
+    FLAGS = {'I': re.I, 'IGNORECASE': re.I, 'A': re.A, 'ASCII': re.A, 'U': re.U, 'UNICODE': re.U}
+
+    def read_flags(self):
+        """the flags expression of `util.LazyRegex('^(?:%s)$' % value, <flags>)` in `_compile_regexes`"""
+        fn = [st for st in self.cls.body if isinstance(st, ast.FunctionDef) and st.name == '_compile_regexes']
+        if not fn:
+            raise TranslateError('Profiles._compile_regexes not found')
+        calls = [n for n in ast.walk(fn[0]) if isinstance(n, ast.Call) and isinstance(n.func, ast.Attribute)
+                 and n.func.attr == 'LazyRegex']
+        if len(calls) != 1 or len(calls[0].args) not in (1, 2) or calls[0].keywords:
+            raise TranslateError('expected exactly one util.LazyRegex(pattern[, flags]) call in _compile_regexes')
+        c = calls[0]
+        a0 = c.args[0]
+        if not (isinstance(a0, ast.BinOp) and isinstance(a0.op, ast.Mod) and isinstance(a0.left, ast.Constant)
+                and a0.left.value == '^(?:%s)$'):
+            raise TranslateError('the pattern is not wrapped as ^(?:%s)$')
+
+        def ev(node):
+            if isinstance(node, ast.BinOp) and isinstance(node.op, ast.BitOr):
+                return ev(node.left) | ev(node.right)
+            if isinstance(node, ast.Attribute) and isinstance(node.value, ast.Name) and node.value.id == 're' \
+                    and node.attr in self.FLAGS:
+                return int(self.FLAGS[node.attr])
+            raise TranslateError('flags expression not understood: %s' % ast.dump(node))
+        return ev(c.args[1]) if len(c.args) == 2 else 0
 
     def read_addprofiles(self):
         """the (profile, properties[...], macros[...]) triples of the addProfiles call in __init__"""
@@ -286,16 +313,36 @@ class Sharing:
 
 
 # ----------------------------------------------------------------------------------------------
+ASCII_SPACE = [(9, 13), (32, 32)]
+
+
+def parse_pattern(pat, flags):
+    """relib.parse with the category tables of the mode the pattern is compiled in (relib's \\s is Unicode's)"""
+    if not (flags & re.A):
+        return relib.parse(pat, flags)
+    from re._constants import CATEGORY_SPACE
+    saved = relib.CATS[CATEGORY_SPACE]
+    relib.CATS[CATEGORY_SPACE] = ASCII_SPACE
+    try:
+        return relib.parse(pat, flags)
+    finally:
+        relib.CATS[CATEGORY_SPACE] = saved
+
+
 def translate(repo):
     """-> (lean source of Gen/C13Profiles.lean, info dict for the harness)"""
     path = os.path.join(repo, 'cssutils', 'profiles.py')
     with open(path, encoding='utf-8') as f:
         src = f.read()
     rd = Reader(src)
+    if not (rd.flags & re.I):
+        # the theorems (fold-closed classes) and the harness are about case-insensitive patterns; a tree that
+        # compiles them case-sensitively is translated as such (and then fails those theorems)
+        pass
     used, reg = registry(rd)
     sha = hashlib.sha256(src.encode('utf-8')).hexdigest()
     info = {'sha256': sha, 'profiles': [], 'fontface': rd.consts.get('CSS3_FONT_FACE'),
-            'consts': rd.consts, 'macros': used}
+            'consts': rd.consts, 'macros': used, 'flags': rd.flags}
     defs, entries, seen = [], [], {}
     kw = []
     total_size = 0
@@ -304,7 +351,7 @@ def translate(repo):
     for prof, props in reg:
         for name, pat in props:
             if pat not in parsed:
-                parsed[pat] = freeze(relib.parse(pat, re.I))        # raises Unsupported on anything outside the subset
+                parsed[pat] = freeze(parse_pattern(pat, rd.flags))        # raises Unsupported on anything outside the subset
     share = Sharing(parsed.values())
     for pi, (prof, props) in enumerate(reg):
         plist = []
@@ -336,7 +383,8 @@ def translate(repo):
     out.append('')
     out.append('The registry as `Profiles.__init__` leaves it: profiles in `_profileNames` order, each with its')
     out.append('properties in dictionary order and the fully macro-expanded, `^(?:…)$`-wrapped pattern compiled with')
-    out.append('`re.I`, as a `Re` term (the leading `^` is dropped: `match` is anchored; `$` is `Re.eol`; case')
+    out.append('`%s`, as a `Re` term (the leading `^` is dropped: `match` is anchored; `$` is `Re.eol`; case'
+               % ('|'.join(n for n, f in (('re.I', re.I), ('re.A', re.A)) if rd.flags & f) or '0'))
     out.append('insensitivity is folded into the classes, ASCII letters only).')
     out.append('%d profiles, %d (profile, property) entries, %d distinct patterns, total Re size %d.'
                % (len(reg), len(entries), len(seen), total_size))
@@ -417,8 +465,8 @@ def crosscheck(repo, info):
             if [k for k, _ in props] != [k for k, _ in lp]:
                 diffs.append('property order differs in %s' % n)
         for k, pat, fl in lprops:
-            if (fl & re.I) == 0 or (fl & ~(re.I | re.U)) != 0:
-                diffs.append('flags of %s / %s: %s' % (n, k, fl))
+            if (fl & ~re.U) != (info['flags'] & ~re.U):
+                diffs.append('flags of %s / %s: live %s, translated %s' % (n, k, fl, info['flags']))
     if info['fontface'] != live['FONT_FACE']:
         diffs.append('CSS3_FONT_FACE differs')
     if live['default'] != live['names']:
